@@ -6,6 +6,8 @@ import Qco.Driver.Hex
 import Qco.Spec.File
 import Qco.Train.WFc
 import Qco.Op.Decomp
+import Qco.Glue.Auto
+import Qco.DType.Timestamps
 namespace Qco.Driver
 open Qco
 
@@ -241,11 +243,70 @@ def cmdDops (args : List String) : String :=
       " ; ".intercalate outs.reverse
   | _ => "bad-args"
 
+/-! ### timestamps (`ts`) -/
+
+def tsPps (ty : String) : Option (Int × Bool) :=
+  match ty with
+  | "nanos" => some (1000000000, false)
+  | "micros" => some (1000000, false)
+  | "nanos96" => some (1000000000, true)
+  | "micros96" => some (1000000, true)
+  | _ => none
+
+def stStr (st : TS.SysTime) : String :=
+  s!"{if st.before then "-" else "+"} {st.secs} {st.nanos}"
+
+def outStr {α : Type} (f : α → String) : TS.Outcome α → String
+  | .ok a => "ok " ++ f a
+  | .invalid => "err InvalidArgument"
+  | .corrupt => "err Corruption"
+  | .panic => "panic"
+
+def outTag {α : Type} : TS.Outcome α → String
+  | .ok _ => "ok"
+  | .invalid => "err:InvalidArgument"
+  | .corrupt => "err:Corruption"
+  | .panic => "panic"
+
+def parseInt (s : String) : Int :=
+  if s.startsWith "-" then -((s.drop 1).toString.toNat! : Int) else (s.toNat! : Int)
+
+def cmdTs (args : List String) : String :=
+  match args with
+  | ty :: op :: rest =>
+    match tsPps ty with
+    | none => "bad-type"
+    | some (pps, is96) =>
+      match op, rest with
+      | "fromst", [sign, secs, nanos] =>
+        let st : TS.SysTime := { before := sign == "-", secs := secs.toNat!, nanos := nanos.toNat! }
+        outStr toString (if is96 then TS.ofSysTime96 pps st else TS.ofSysTime64 pps st)
+      | "rt", [sign, secs, nanos] =>
+        let st : TS.SysTime := { before := sign == "-", secs := secs.toNat!, nanos := nanos.toNat! }
+        match (if is96 then TS.ofSysTime96 pps st else TS.ofSysTime64 pps st) with
+        | .ok parts => outStr stStr (if is96 then TS.toSysTime96 pps parts else TS.toSysTime64 pps parts)
+        | o => outStr toString o
+      | "tost", [parts] =>
+        let p := parseInt parts
+        if is96 then
+          match TS.new96 pps p with
+          | .ok p => outStr stStr (TS.toSysTime96 pps p)
+          | o => outStr toString o
+        else outStr stStr (TS.toSysTime64 pps p)
+      | "validate", [parts] =>
+        let p := parseInt parts
+        let v : TS.Outcome Unit := if TS.valid96 pps p then .ok () else .corrupt
+        s!"validate={outTag v} new={outTag (TS.new96 pps p)} tryfrom={outTag (TS.toSysTime96 pps p)}"
+      | _, _ => "bad-op"
+  | _ => "bad-args"
+
 def answer (line : String) : String :=
   match line.trimAscii.toString.splitOn " " with
   | "dec" :: args => cmdDec args
   | "enc" :: args => cmdEnc args
   | "dops" :: args => cmdDops args
+  | "ts" :: args => cmdTs args
+  | "auto" :: sizes => toString (Glue.pickOrder (sizes.map String.toNat!))
   | "map" :: args => cmdMap args
   | "mapu" :: args => cmdMapU args
   | "rawbytes" :: args => cmdRawBytes args
